@@ -361,7 +361,17 @@ func (dd *msgpipelineDelivery) AddRcpt(ctx context.Context, to string, opts smtp
 			}
 
 			if originalTo != to {
-				dd.msgMeta.OriginalRcpts[to] = originalTo
+				clientTo := originalTo
+				// originalTo can be a result of the rewriting done by an
+				// enclosing pipeline, refer to the address it was given
+				// then. Entries made by this pipeline are not followed:
+				// the client can name both an alias and the address it is
+				// the alias of.
+				outerTo, ok := dd.msgMeta.OriginalRcpts[originalTo]
+				if ok && !contains(dd.originalRcpts[originalTo], outerTo) {
+					clientTo = outerTo
+				}
+				dd.msgMeta.OriginalRcpts[to] = clientTo
 			}
 			dd.originalRcpts[to] = appendUnique(dd.originalRcpts[to], originalTo)
 
@@ -472,11 +482,18 @@ func (sc statusCollector) SetStatus(rcptTo string, err error) {
 	}
 }
 
-func appendUnique(list []string, s string) []string {
+func contains(list []string, s string) bool {
 	for _, v := range list {
 		if v == s {
-			return list
+			return true
 		}
+	}
+	return false
+}
+
+func appendUnique(list []string, s string) []string {
+	if contains(list, s) {
+		return list
 	}
 	return append(list, s)
 }
